@@ -11,6 +11,7 @@ from jinja2 import nodes as N
 from ..core import AnalysisError, RuleSpec
 from ..jmodel import JModel, sym
 from ..pymodel import call_name
+from .. import astq
 from .. import tables
 
 EXPLANATION = (
@@ -323,30 +324,42 @@ def r1_list_pages(ctx, rep):
     pages = list_page_conditions(py)
     epm = entity_page_map(py)
     subl = property_sublists(py, "Project")
-    ordinal: Dict[Tuple[str, str], int] = {}
-    for lit in j.literals:
-        for m in re.finditer(r"/lists/([\w.-]+\.html)", lit.text):
-            page = m.group(1)
-            k = ordinal[(lit.template, page)] = ordinal.get((lit.template, page), 0) + 1
-            construct = f"template={lit.template} link=lists/{page}" + (f"#{k}" if k > 1 else "")
-            loc = f"ford/templates/{lit.template}:{lit.lineno + lit.text[:m.start()].count(chr(10))}"
-            if page not in pages:
-                rep.ob(construct, False, f"no ListPage with out_page {page!r} is ever created", loc)
+    # every place where a list page / a singular entity page is linked: literal template text and (string constant)
+    # values that reach an href through macro parameters; taken from the macro-expanded view of every page template
+    lit_sites: Dict[Tuple[str, int, str], Tuple[str, list, str]] = {}
+    out_sites: Dict[Tuple[str, int, str], object] = {}
+    for tpl in all_page_templates(ctx):
+        outs, lits = j.expand(tpl)
+        for lit in lits:
+            for m in re.finditer(r"/lists/([\w.-]+\.html)", lit.text):
+                line = lit.lineno + lit.text[:m.start()].count(chr(10))
+                lit_sites.setdefault((lit.template, line, m.group(1)), (m.group(1), lit.conds, f"ford/templates/{lit.template}:{line}"))
+        for o in outs:
+            if o.ctx != ("attr", "href") or "<in-test>" in o.macros:
                 continue
-            guard = ("and", premise, guard_of(lit.conds, tests))
-            goal = pages[page][0]
-            cex = implies(guard, goal)
-            rep.ob(construct, cex is None,
-                   (f"guard {p_show(guard)} => creation {p_show(goal)}" if cex is None else
-                    f"link is emitted when {p_show(guard)} but the page is only written when "
-                    f"{p_show(goal)}; counterexample {cex}"), loc, witness=cex)
+            m = re.fullmatch(r"['\"](?:/)?lists/([\w.-]+\.html)['\"]", o.sym.strip())
+            if m:
+                lit_sites.setdefault((o.template, o.lineno, m.group(1) + "@" + "|".join(c[0] for c in o.conds)),
+                                     (m.group(1), o.conds, o.loc))
+            if re.fullmatch(r"project\.(\w+)\[(\d+)\]\.get_url\(\)", o.sym.strip()):
+                out_sites.setdefault((o.template, o.lineno, o.sym.strip() + "@" + "|".join(c[0] for c in o.conds)), o)
+    ordinal: Dict[Tuple[str, str], int] = {}
+    for (tname, line, _), (page, conds, loc) in sorted(lit_sites.items(), key=lambda kv: (kv[0][0], kv[0][1], kv[0][2])):
+        k = ordinal[(tname, page)] = ordinal.get((tname, page), 0) + 1
+        construct = f"template={tname} link=lists/{page}" + (f"#{k}" if k > 1 else "")
+        if page not in pages:
+            rep.ob(construct, False, f"no ListPage with out_page {page!r} is ever created", loc)
+            continue
+        guard = ("and", premise, guard_of(conds, tests))
+        goal = pages[page][0]
+        cex = implies(guard, goal)
+        rep.ob(construct, cex is None,
+               (f"guard {p_show(guard)} => creation {p_show(goal)}" if cex is None else
+                f"link is emitted when {p_show(guard)} but the page is only written when "
+                f"{p_show(goal)}; counterexample {cex}"), loc, witness=cex)
     # singular links project.X[k].get_url()
-    for o in j.outputs:
-        if o.ctx != ("attr", "href"):
-            continue
-        m = re.fullmatch(r"project\.(\w+)\[(\d+)\]\.get_url\(\)", o.src)
-        if not m:
-            continue
+    for _, o in sorted(out_sites.items(), key=lambda kv: (kv[0][0], kv[0][1], kv[0][2])):
+        m = re.fullmatch(r"project\.(\w+)\[(\d+)\]\.get_url\(\)", o.sym.strip())
         coll, k = m.group(1), int(m.group(2))
         guard = ("and", premise, guard_of(o.conds, tests))
         goal = ("cmp", ">", ("len", coll), ("const", k))
@@ -674,12 +687,14 @@ def r5_dirs(ctx, rep):
     # directories writeout creates
     fn = py.func("Documentation.writeout")
     created: Set[str] = set()
+    oenv = py.module_env("output")
     for n in ast.walk(fn):
-        if isinstance(n, ast.For) and isinstance(n.iter, ast.List) and \
-                any(call_name(c).endswith(".mkdir") for c in py.walk_calls(n)):
-            created |= {e.value for e in n.iter.elts if isinstance(e, ast.Constant)}
+        if isinstance(n, ast.For) and any(call_name(c).endswith(".mkdir") for c in py.walk_calls(n)):
+            v = py.eval_const(n.iter, oenv)
+            if isinstance(v, (list, tuple)):
+                created |= {x for x in v if isinstance(x, str)}
     if len(created) < 6:
-        raise AnalysisError("writeout: directory creation loop not found")
+        raise AnalysisError("writeout: directory creation loop (over a constant list of names) not found")
     # values get_dir can return: self.obj of the classes in the isinstance tuples + literal returns
     returns: Dict[str, str] = {}
     for cls, ci in py.classes.items():
@@ -716,30 +731,44 @@ def r5_dirs(ctx, rep):
         rep.ob(f"{k} dir={v}", v in created, f"{k} returns {v!r}; writeout creates {sorted(created)}",
                py.nloc(py.func(k.replace('.get_dir', '') + '.get_dir')))
     # DocPage.outfile / loc / get_url compose (get_dir, ident, .html) identically
-    gu = ast.unparse(py.func("FortranBase.get_url"))
-    rep.ob("get_url composes '{dir}/{ident}.html'", "f'{loc}/{self.ident}.html'" in gu,
-           "FortranBase.get_url returns f'{loc}/{self.ident}.html' with loc = get_dir()", py.nloc(py.func("FortranBase.get_url")))
-    op = ast.unparse(py.func("DocPage.object_page"))
-    of = ast.unparse(py.func("DocPage.outfile"))
-    rep.ob("DocPage.outfile composes out_dir/get_dir()/ident.html",
-           "self.obj.ident + '.html'" in op and "self.out_dir / self.obj.get_dir() / self.object_page" in of,
-           "DocPage writes the page exactly where get_url points", py.nloc(py.func("DocPage.outfile")))
+    guf = py.func("FortranBase.get_url")
+    shapes = set()
+    senv = {"__by_text__": True, "self.ident": "{ident}", "self.get_dir()": "{dir}"}
+    for e in astq.trace(guf):
+        if e.kind == "return" and e.value is not None and any("get_dir" in c and not c.startswith("not ") for c in e.cond_texts() +
+                                                                  [ast.unparse(x) for x in astq.expand_locals(e.value, guf)]):
+            env = dict(senv)
+            for nm, val in [(n.id, v) for n in ast.walk(e.value) if isinstance(n, ast.Name) for _, v in astq.assignments(guf, n.id) if v is not None]:
+                if "get_dir" in ast.unparse(val):
+                    env[nm] = "{dir}"
+            v = py.eval_const(e.value, env)
+            if isinstance(v, str) and "{dir}" in v:
+                shapes.add(v)
+    ok = shapes == {"{dir}/{ident}.html"}
+    rep.ob("get_url composes '{dir}/{ident}.html'", ok,
+           "FortranBase.get_url returns '<get_dir()>/<ident>.html'" if ok else
+           f"FortranBase.get_url composes the page URL as {sorted(shapes) or 'an expression that is not understood'}",
+           py.nloc(guf))
+    opf, off = py.func("DocPage.object_page"), py.func("DocPage.outfile")
+    opv = {py.eval_const(r, {"__by_text__": True, "self.obj.ident": "{ident}"}) for r in astq.returns(opf)}
+    outs_ = astq.returns(off)
+    of_ok = bool(outs_) and all(astq.mentions(r, "self.out_dir", off) and astq.mentions(r, "self.obj.get_dir()", off)
+                                and astq.mentions(r, "self.object_page", off) for r in outs_)
+    rep.ob("DocPage.outfile composes out_dir/get_dir()/ident.html", opv == {"{ident}.html"} and of_ok,
+           "DocPage writes the page exactly where get_url points" if opv == {"{ident}.html"} and of_ok else
+           f"DocPage.object_page = {sorted(map(str, opv))}, outfile = {[ast.unparse(r) for r in outs_]}", py.nloc(off))
     # asset directories referenced from templates under project_url exist
     copied: Set[str] = set(created)
     for c in py.walk_calls(fn):
-        if call_name(c) in ("copytree", "shutil.copy") and len(c.args) >= 2:
-            d = c.args[1]
-            parts = []
-            while isinstance(d, ast.BinOp) and isinstance(d.op, ast.Div):
-                if isinstance(d.right, ast.Constant):
-                    parts.append(d.right.value)
-                d = d.left
-            if parts:
-                copied.add(parts[-1])
+        if call_name(c).split(".")[-1] in ("copytree", "copy", "copyfile", "copy2") and len(c.args) >= 2:
+            lits = astq.path_literals(c.args[1], fn)
+            if lits:
+                copied.add(lits[0].split("/")[0])
     for n in ast.walk(fn):
-        if isinstance(n, ast.For) and isinstance(n.iter, ast.List) and \
-                any(call_name(c) == "copytree" for c in py.walk_calls(n)):
-            copied |= {e.value for e in n.iter.elts if isinstance(e, ast.Constant)}
+        if isinstance(n, ast.For) and any(call_name(c).split(".")[-1] == "copytree" for c in py.walk_calls(n)):
+            v = py.eval_const(n.iter, oenv)
+            if isinstance(v, (list, tuple)):
+                copied |= {x for x in v if isinstance(x, str)}
     copied |= {"index.html", "search.html"}
     refs = set()
     for o in ctx.j.outputs:
